@@ -93,6 +93,22 @@ Theorem C02_earliest_order_independent : forall bs bs' : list Z,
 Proof. exact earliest_order_independent. Qed.
 Print Assumptions C02_earliest_order_independent.
 
+(* The sample rate in force is the PUBLISHED one: upload.Run downloads the
+   upload config only in mode on and uses its SampleRate unchanged; in every
+   other mode the rate has no influence on the run at all. *)
+Theorem C02_run_entry_uses_published_rate : forall (R : Type) (rlt : R -> R -> bool) (rzero : R)
+    (published : R) (cfg : runcfg R) (fs : fstate),
+  run_entry R rlt rzero published cfg fs = run R rlt rzero (with_rate R cfg published) fs.
+Proof. exact run_entry_is_run. Qed.
+Print Assumptions C02_run_entry_uses_published_rate.
+
+Theorem C02_rate_irrelevant_not_on : forall (R : Type) (rlt : R -> R -> bool) (rzero : R)
+    mode asof (cfg : runcfg R) (r : R) (d : dirs),
+  mode <> m_on ->
+  run_ma R rlt rzero mode asof (with_rate R cfg r) d = run_ma R rlt rzero mode asof cfg d.
+Proof. exact rate_irrelevant_not_on. Qed.
+Print Assumptions C02_rate_irrelevant_not_on.
+
 (* in a run, a report without the "local." prefix is created only for a week
    whose uploadOK is true *)
 Theorem C02_uploadable_only_if : forall (R : Type) (rlt : R -> R -> bool) (rzero : R)
